@@ -39,20 +39,44 @@ class View:
         return Part(a, b)
 
 
+class _CallerFile:
+    """an open file object handed in by the caller (ParquetFile(fileobj)): fastparquet must not close it"""
+
+    def __init__(self):
+        self.closed = False
+        self.opens = 0
+
+    def close(self):
+        self.closed = True
+
+    def __enter__(self):
+        return self
+
+    def __exit__(self, *a):
+        self.closed = True
+        return False
+
+
 class Handle:
     """what to_pandas/head/count read from `self`"""
 
-    def __init__(self, rows):
+    def __init__(self, rows, scheme="hive"):
         self.row_groups = [RG(n, i) for i, n in enumerate(rows)]
         self.columns = ["a"]
         self.cats = {}
         self.key_value_metadata = {}
-        self.file_scheme = "hive"
+        self.file_scheme = scheme
         self.partition_meta = {}
-        self.fn = "d/_metadata"
+        self.fn = "d/_metadata" if scheme == "hive" else "f.parq"
         self.allocated = None
         self.reads = []
         self.sliced = None
+        self.file = _CallerFile()
+
+    def open(self, fn, mode="rb"):
+        # a handle built from a file object returns that very object (api.ParquetFile.__init__: self.open = lambda *a: fn)
+        self.file.opens += 1
+        return self.file
 
     def _get_index(self, index=None):
         return []
@@ -63,6 +87,10 @@ class Handle:
 
     def read_row_group_file(self, rg, columns, categories, index, assign=None, partition_meta=None,
                             row_filter=False, infile=None):
+        if infile is not None and infile.closed:
+            raise ValueError("I/O operation on closed file.")
+        if self.file_scheme == "simple" and infile is not self.file:
+            raise AssertionError("single-file read without the shared file object")
         self.reads.append((rg.tag, assign["a"].start, assign["a"].stop, row_filter, assign["a-catdef"]))
 
     _columns_from_filters = ParquetFile._columns_from_filters
@@ -364,6 +392,114 @@ def replay_h_range_index(start, step, size):
                 start, step, size, type(ex).__name__, str(ex)[:120])
         if list(out.index) != list(df.index):
             return True, "range index comes back as %r, written %r" % (list(out.index)[:6], list(df.index)[:6])
+        return False, "agrees"
+    finally:
+        shutil.rmtree(d, ignore_errors=True)
+
+
+
+# --------------------------------------------- repeated use of one handle (C06 / C13) ---
+def _snapshot(h):
+    return (h.allocated, list(h.reads))
+
+
+def h_repeat_reads_filelike(n0: int, n1: int, first: int) -> bool:
+    """
+    pre: 1 <= n0 <= 3 and 1 <= n1 <= 3 and 0 <= first <= 2
+    post: __return__
+    """
+    # a handle on a caller-supplied open file: any first operation (full read / head / count) leaves the file open and
+    # the handle unchanged, so a following full read equals the read of a fresh handle
+    h = Handle([n0, n1], scheme="simple")
+    if first == 0:
+        h.to_pandas()
+    elif first == 1:
+        if n0 + n1 > 0:
+            h.count()
+    else:
+        h.count()
+    if h.file.closed:
+        return False
+    h.allocated, h.reads = None, []
+    h.to_pandas()
+    fresh = Handle([n0, n1], scheme="simple")
+    fresh.to_pandas()
+    return _snapshot(h) == _snapshot(fresh) and not h.file.closed and [rg.num_rows for rg in h.row_groups] == [n0, n1]
+
+
+def replay_h_repeat_reads_filelike(n0, n1, first):
+    import io, os, shutil, tempfile
+    import pandas as pd
+    import fastparquet
+    rows = [n for n in (n0, n1) if n > 0]
+    if not rows:
+        return None, "no rows"
+    df = pd.DataFrame({"a": range(sum(rows))})
+    d = tempfile.mkdtemp(prefix="c06-")
+    try:
+        fn = os.path.join(d, "t.parq")
+        fastparquet.write(fn, df, row_group_offsets=[0, rows[0]][:len(rows)])
+        with open(fn, "rb") as f:
+            pf = fastparquet.ParquetFile(f)
+            try:
+                if first == 0:
+                    pf.to_pandas()
+                else:
+                    pf.count()
+                out = pf.to_pandas()
+            except Exception as ex:
+                return True, "second read through a handle on an open file object fails: %s: %s" % (
+                    type(ex).__name__, ex)
+            if list(out["a"]) != list(df["a"]):
+                return True, "second read differs"
+            if f.closed:
+                return True, "reading through a handle built on the caller's open file object closed that file"
+        return False, "agrees"
+    finally:
+        shutil.rmtree(d, ignore_errors=True)
+
+
+def h_mask_then_reads(mask: List[bool]) -> bool:
+    """
+    pre: len(mask) == sum(ROWS)
+    post: __return__
+    """
+    # a masked read must not disturb the handle: the following plain read and count equal those of a fresh handle
+    h = Handle(list(ROWS))
+    h.to_pandas(row_filter=BoolVec(mask))
+    h.allocated, h.reads = None, []
+    h.to_pandas()
+    fresh = Handle(list(ROWS))
+    fresh.to_pandas()
+    return _snapshot(h) == _snapshot(fresh) and h.count() == sum(ROWS)
+
+
+def replay_h_mask_then_reads(mask):
+    import os, shutil, tempfile
+    import numpy as np
+    import pandas as pd
+    import fastparquet
+    rows = [r for r in ROWS]
+    if min(rows) < 1:
+        return None, "empty row groups cannot be written by the concrete driver"
+    df = pd.DataFrame({"a": range(sum(rows))})
+    offs = [0]
+    for n in rows[:-1]:
+        offs.append(offs[-1] + n)
+    d = tempfile.mkdtemp(prefix="c13-")
+    try:
+        fn = os.path.join(d, "t.parq")
+        fastparquet.write(fn, df, row_group_offsets=offs)
+        pf = fastparquet.ParquetFile(fn)
+        pf.to_pandas(row_filter=np.array(mask, dtype=bool))
+        try:
+            out = pf.to_pandas()
+            cnt = pf.count()
+        except Exception as ex:
+            return True, "read after a masked read fails: %s" % ex
+        if list(out["a"]) != list(df["a"]) or cnt != len(df):
+            return True, "after to_pandas(row_filter=%r) the same handle returns %d rows (count()=%d) of %d" % (
+                mask, len(out), cnt, len(df))
         return False, "agrees"
     finally:
         shutil.rmtree(d, ignore_errors=True)
